@@ -694,10 +694,33 @@ def run(scenario, world):
                 if ll.n_parameters() >= 1:
                     check_ll(ll, vals, step, world)
                 world.probe('likelihood_fixed_and_rechecked')
+            fixed_now = sorted(set(pos % len(names_ll)
+                                   for pos in op.get('fix', [])))
+            free_now = [i for i in range(len(names_ll))
+                        if i not in fixed_now]
+            if op.get('swap') and fixed_now and free_now:
+                # one call that releases one parameter and fixes another:
+                # the number of free parameters stays, the names must not
+                a_, b_ = fixed_now[0], free_now[-1]
+                r = call(ll.fix_parameters, {
+                    names_ll[a_]: None,
+                    names_ll[b_]: vals[b_ % len(vals)]})
+                if is_exc(r):
+                    fail('op.fix_likelihood', 'swap_raises', '%r\n%s' % (
+                        r, r.tb), step)
+                fixed_now = sorted(set(fixed_now) - {a_} | {b_})
+                want_ = [nm for i, nm in enumerate(names_ll)
+                         if i not in fixed_now]
+                if ll.n_parameters() >= 1:
+                    check_ll(ll, vals, step, world)
+                if list(ll.get_parameter_names()) != want_:
+                    fail('loglik.name_order', 'after_swap',
+                         'names %s, expected %s' % (
+                             ll.get_parameter_names(), want_), step)
+                world.probe('likelihood_fix_swapped')
             if op.get('fix') and op.get('release', True):
                 r = call(ll.fix_parameters, dict(
-                    (names_ll[pos % len(names_ll)], None)
-                    for pos in op['fix']))
+                    (names_ll[pos], None) for pos in fixed_now))
                 if is_exc(r):
                     fail('op.fix_likelihood', 'release_raises', '%r\n%s' % (
                         r, r.tb), step)
@@ -1193,6 +1216,7 @@ def _generate(rng, index, tier):
                 op['fix'] = [rng.randint(0, 40)
                              for _ in range(rng.randint(1, 3))]
                 op['release'] = rng.random() < 0.7
+                op['swap'] = rng.random() < 0.4
         elif o == 'compose_filter':
             op['n_samples'] = rng.randint(2, 4)
             ts = rng.sample([0.5, 1.0, 2.0, 3.0], rng.randint(1, 3))
